@@ -253,9 +253,9 @@ def expectedBody (fits : List (List Message)) : Option (List Message) :=
       | _, _ => none
   go [] ins
 
-/-- class of finding KF-C20-3: an accumulable quantity (message number, field number) has its first valid value in a
-file other than the first one (creation-time order). `accumulator.Accumulate` then stores that first value as the
-"value of the previous sequences", and every later value of the same file gets it added. -/
+/-- the situation of finding KF-C20-3 (fixed in /repo): an accumulable quantity (message number, field number) has its first valid value in a
+file other than the first one (creation-time order). Before the fix `accumulator.Accumulate` stored that first value as
+the "value of the previous sequences", and every later value of the same file got it added. -/
 def freshKeyLater (fits : List (List Message)) : Bool :=
   let rec go : List (List Message) → List (List Message) → Bool
     | _, [] => false
